@@ -1121,6 +1121,18 @@ def dict_method(eng, d, name, args, kwargs, st):
             for k, v in kwargs.items():
                 eng.set_item(d, k, v, st)
             return None
+        if len(args) == 1 and isinstance(args[0], (list, tuple)) and all(
+                isinstance(x, (list, tuple)) and len(x) == 2 for x in args[0]):
+            # an iterable of key/value pairs
+            for k, v in args[0]:
+                eng.set_item(d, k, v, st)
+            for k, v in kwargs.items():
+                eng.set_item(d, k, v, st)
+            return None
+        if not args:
+            for k, v in kwargs.items():
+                eng.set_item(d, k, v, st)
+            return None
         raise Unsupported("dict.update argument")
     if name == "pop":
         k = args[0]
